@@ -13,10 +13,20 @@ Magnitude hypotheses: `|x| < 2^1023` reads `x.toInt.natAbs < 2^2097` (2097 = 102
 `2^-960 ≤ |a·b| < 2^1023` reads `2^1188 ≤ (toInt a * toInt b).natAbs < 2^3171`
 (1188 = 2·1074 − 960, 3171 = 2·1074 + 1023).
 
+`2^-480 ≤ |x| ≤ 2^480` reads `2^594 ≤ x.toInt.natAbs ≤ 2^1554`.  The real quotient `a/b`, in units of
+`2^-1074`, is `toInt a · 2^1074 / toInt b`; bounds on it are stated cross-multiplied by `|toInt b|`.
+
 All theorems are about the generated model (`TFV/Gen.lean`): `arithmetic.fast_two_sum`,
-`TwoFloat.new_add`, `TwoFloat.new_sub`, `TwoFloat.new_mul`, `TwoFloat.from_f64`,
+`TwoFloat.new_add`, `TwoFloat.new_sub`, `TwoFloat.new_mul`, `TwoFloat.new_div`, `TwoFloat.from_f64`,
 `convert.impl_From_f64_for_TwoFloat.from`.  Proofs: `TFV/Lemmas/EFT.lean` (layer L2) on top of
 `TFV/Spec/F64Ops.lean` (L1) and `TFV/Spec/Rounding.lean` (L0).
+
+Every clause of C02 is proved in full (no `_partial` theorem):
+`fast_two_sum_exact`, `fast_two_sum_valid`, `new_add_exact`, `new_sub_exact`, `new_mul_exact`,
+`new_div_bounds` (+ `new_div_structure`), `from_f64_exact`.
+Kernel-checked witnesses that the provisos are needed: `fast_two_sum_not_exact_without_precondition`,
+`new_add_not_exact_near_overflow`, `new_mul_not_exact_below_threshold`; and one finding about a helper outside
+C02's clauses, `renorm3_drops_third_word`.
 -/
 import TFV.Lemmas.EFT
 
@@ -139,6 +149,83 @@ theorem new_mul_words (a b : F64) (hwa : a.WF) (hwb : b.WF)
   obtain ⟨Q, hQ, hh, hl⟩ := F64.new_mul_words ha hb hwa hwb h
   exact ⟨Q, hQ, hh.2, hl.2⟩
 
+/-! ## `new_div` -/
+
+/-- the IEEE quotient is the first word fed to the final Fast2Sum of `new_div`, by definition -/
+theorem new_div_eq (a b : F64) :
+    TwoFloat.new_div a b =
+      arithmetic.fast_two_sum (F64.div a b)
+        (F64.div (F64.sub (F64.sub a (TwoFloat.new_mul (F64.div a b) b).hi)
+          (TwoFloat.new_mul (F64.div a b) b).lo) b) := rfl
+
+/-- **`new_div`: `hi` is within one ulp of `a/b`, and `hi + lo` is within `2^-106·|a/b|` of `a/b`**
+(the property asks for `3·2^-106`), for all finite doubles with `2^-480 ≤ |a|, |b| ≤ 2^480`
+(`2^594 ≤ natAbs (toInt ·) ≤ 2^1554`).  Everything is cross-multiplied by `|b|`:
+`a/b` in units of `2^-1074` is `toInt a · 2^1074 / toInt b`, and `2^e` with
+`e = ⌊log2 ⌊|a/b|⌋⌋ - 52` is the ulp of the binade of `|a/b|` (so also `ulp(RN(a/b))` up to the binade edge).
+Moreover the result is a valid pair with well-formed words. -/
+theorem new_div_bounds (a b : F64) (hwa : a.WF) (hwb : b.WF)
+    (ha : a.is_finite = true) (hb : b.is_finite = true)
+    (hA1 : 2 ^ 594 ≤ a.toInt.natAbs) (hA2 : a.toInt.natAbs ≤ 2 ^ 1554)
+    (hB1 : 2 ^ 594 ≤ b.toInt.natAbs) (hB2 : b.toInt.natAbs ≤ 2 ^ 1554) :
+    (TwoFloat.new_div a b).Valid ∧ (TwoFloat.new_div a b).WF ∧
+    |(TwoFloat.new_div a b).hi.toInt * b.toInt - a.toInt * (unit : Int)|
+      ≤ |b.toInt| * 2 ^ (Nat.log2 (a.toInt.natAbs * unit / b.toInt.natAbs) - 52) ∧
+    2 ^ 106 * |(TwoFloat.new_div a b).V * b.toInt - a.toInt * (unit : Int)|
+      ≤ |a.toInt| * (unit : Int) := by
+  have hB52 : 2 ^ 52 ≤ b.toInt.natAbs :=
+    Nat.le_trans (pow_le_pow_right₀ (by norm_num) (by norm_num)) hB1
+  have hA105 : 2 ^ 105 ≤ a.toInt.natAbs :=
+    Nat.le_trans (pow_le_pow_right₀ (by norm_num) (by norm_num)) hA1
+  have hbpos : 0 < b.toInt.natAbs := Nat.lt_of_lt_of_le (by positivity) hB52
+  have hAlt : a.toInt.natAbs < 2 ^ 2097 :=
+    Nat.lt_of_le_of_lt hA2 (pow_lt_pow_right₀ (by norm_num) (by norm_num))
+  have e1 : (2 : Nat) ^ 105 * 2 ^ 1554 = 2 ^ 1659 := by rw [← pow_add]
+  have e2 : (2 : Nat) ^ 594 * 2 ^ 1074 = 2 ^ 1668 := by rw [← pow_add]
+  have e3 : (2 : Nat) ^ 1659 ≤ 2 ^ 1668 := pow_le_pow_right₀ (by norm_num) (by norm_num)
+  have e4 : (2 : Nat) ^ 1554 * 2 ^ 1074 = 2 ^ 2628 := by rw [← pow_add]
+  have e5 : (2 : Nat) ^ 2034 * 2 ^ 594 = 2 ^ 2628 := by rw [← pow_add]
+  have e6 : 2 * (2 : Nat) ^ 2034 = 2 ^ 2035 := by rw [← pow_succ']
+  have e7 : (2 : Nat) ^ 2035 ≤ 2 ^ 2097 := pow_le_pow_right₀ (by norm_num) (by norm_num)
+  have hq : 2 ^ 105 * b.toInt.natAbs ≤ a.toInt.natAbs * unit := by
+    calc 2 ^ 105 * b.toInt.natAbs ≤ 2 ^ 105 * 2 ^ 1554 := Nat.mul_le_mul_left _ hB2
+      _ = 2 ^ 1659 := e1
+      _ ≤ 2 ^ 1668 := e3
+      _ = 2 ^ 594 * 2 ^ 1074 := e2.symm
+      _ ≤ a.toInt.natAbs * unit := by rw [unit_eq]; exact Nat.mul_le_mul_right _ hA1
+  have hov : 2 * roundQ (a.toInt.natAbs * unit) b.toInt.natAbs ≤ maxFin := by
+    have h1 : roundQ (a.toInt.natAbs * unit) b.toInt.natAbs ≤ 2 ^ 2034 := by
+      apply roundQ_le_of_le hbpos (rep_two_pow 2034)
+      calc a.toInt.natAbs * unit ≤ 2 ^ 1554 * 2 ^ 1074 := by
+            rw [unit_eq]; exact Nat.mul_le_mul_right _ hA2
+        _ = 2 ^ 2628 := e4
+        _ = 2 ^ 2034 * 2 ^ 594 := e5.symm
+        _ ≤ 2 ^ 2034 * b.toInt.natAbs := Nat.mul_le_mul_left _ hB1
+    have h2 : 2 * 2 ^ 2034 ≤ 2 ^ 2097 := by rw [e6]; exact e7
+    exact Nat.le_trans (Nat.le_trans (Nat.mul_le_mul_left 2 h1) h2) two_pow_2097_le_maxFin
+  obtain ⟨tl, _, _, _, _, _, v, w, b1, b2⟩ :=
+    new_div_spec ha hb hwa hwb hB52 hA105 (hwa.two_mul_abs_le hAlt) hq hov
+  exact ⟨v, w, b1, b2⟩
+
+/-- the structure behind `new_div_bounds`: `th = RN(a/b)`, the residual `a - th·b` is computed exactly,
+`tl = RN((a - th·b)/b)` with `|tl| ≤ ulp/2`, and the result is `Fast2Sum(th, tl)`:
+`hi = RN(th + tl)`, `hi + lo = th + tl`. -/
+theorem new_div_structure (a b : F64) (hwa : a.WF) (hwb : b.WF)
+    (ha : a.is_finite = true) (hb : b.is_finite = true)
+    (hB52 : 2 ^ 52 ≤ b.toInt.natAbs) (hA105 : 2 ^ 105 ≤ a.toInt.natAbs)
+    (hA2 : a.toInt.natAbs < 2 ^ 2097)
+    (hq : 2 ^ 105 * b.toInt.natAbs ≤ a.toInt.natAbs * unit)
+    (hov : 2 * roundQ (a.toInt.natAbs * unit) b.toInt.natAbs ≤ maxFin) :
+    ∃ tl : Int,
+      (F64.div a b).is_finite = true ∧ (F64.div a b).toInt = rdI (a.toInt * (unit : Int)) b.toInt ∧
+      2 * |tl| ≤ 2 ^ (Nat.log2 (a.toInt.natAbs * unit / b.toInt.natAbs) - 52) ∧
+      (TwoFloat.new_div a b).hi.toInt = rnI ((F64.div a b).toInt + tl) ∧
+      (TwoFloat.new_div a b).V = (F64.div a b).toInt + tl ∧
+      (TwoFloat.new_div a b).Valid ∧ (TwoFloat.new_div a b).WF := by
+  obtain ⟨tl, h1, h2, h3, h4, h5, h6, h7, _, _⟩ :=
+    new_div_spec ha hb hwa hwb hB52 hA105 (hwa.two_mul_abs_le hA2) hq hov
+  exact ⟨tl, h1, h2, h3, h4, h5, h6, h7⟩
+
 /-! ## `from_f64`, `From<f64>` -/
 
 /-- **`from_f64` and `From<f64>` embed their argument exactly with a `+0` low word** (for every `x`,
@@ -219,6 +306,16 @@ example : (TwoFloat.new_sub minSub fifth).V = minSub.toInt - fifth.toInt :=
   (new_sub_exact minSub fifth (by decide +kernel) (by decide +kernel) (by decide +kernel)
     (by decide +kernel) (by decide +kernel) (by decide +kernel)).2.2.2.1
 
+/-- **Negative witness (the `|a|,|b| < 2^1023` proviso of 2Sum is not vacuous).**  `a = f64::MAX`,
+`b = -1.5·2^971` (1.5 ulps of `MAX`): `s = a ⊕ b = MAX - ulp` is finite, but `aa = s ⊖ b` is the tie
+`MAX + ulp/2`, which rounds to `+∞`; the low word becomes NaN next to a finite high word. -/
+theorem new_add_not_exact_near_overflow :
+    (f64lit 0x7fefffffffffffff).WF ∧ (f64lit 0xfca8000000000000).WF ∧
+    (TwoFloat.new_add (f64lit 0x7fefffffffffffff) (f64lit 0xfca8000000000000)).hi
+      = f64lit 0x7feffffffffffffe ∧
+    (TwoFloat.new_add (f64lit 0x7fefffffffffffff) (f64lit 0xfca8000000000000)).lo = F64.nan ∧
+    ¬ (f64lit 0x7fefffffffffffff).toInt.natAbs < 2 ^ 2097 := by decide +kernel
+
 -- 2Prod: 0.1 · 0.2 and (1 + 2^-52)^2 are inexact products recovered exactly by the low word
 example : (TwoFloat.new_mul tenth fifth).lo.toInt ≠ 0 ∧
     (TwoFloat.new_mul tenth fifth).V * (unit : Int) = tenth.toInt * fifth.toInt ∧
@@ -273,6 +370,20 @@ theorem renorm3_drops_third_word :
     (renorm3Fixed one halfEps c3).Valid ∧
     3 * ((renorm3Fixed one halfEps c3).V - (one.toInt + halfEps.toInt + c3.toInt)) = c3.toInt := by
   decide +kernel
+
+-- new_div: 1/3 and 0.1/(1 + 2^-52); the theorem applies and the low word is not zero
+def three : F64 := f64lit 0x4008000000000000
+example : (TwoFloat.new_div one three).lo.toInt ≠ 0 ∧ (TwoFloat.new_div one three).Valid := by
+  decide +kernel
+example : (TwoFloat.new_div one three).Valid :=
+  (new_div_bounds one three (by decide +kernel) (by decide +kernel) (by decide +kernel)
+    (by decide +kernel) (by decide +kernel) (by decide +kernel) (by decide +kernel)
+    (by decide +kernel)).1
+example : 2 ^ 106 * |(TwoFloat.new_div tenth onePlus).V * onePlus.toInt - tenth.toInt * (unit : Int)|
+    ≤ |tenth.toInt| * (unit : Int) :=
+  (new_div_bounds tenth onePlus (by decide +kernel) (by decide +kernel) (by decide +kernel)
+    (by decide +kernel) (by decide +kernel) (by decide +kernel) (by decide +kernel)
+    (by decide +kernel)).2.2.2
 
 -- from_f64
 example : (TwoFloat.from_f64 tenth).V = tenth.toInt ∧ (TwoFloat.from_f64 tenth).Valid ∧
